@@ -709,12 +709,14 @@ W_SegRetry == ~(res.op = "fail" /\ res.k = "pending")
 W_SegTimeout == ~(res.op = "fail" /\ res.k = "raise" /\ res.err = "InterestTimeout" /\ call = <<"Fail", "timeout">>)
 W_SegInterestZero == ~(res.op = "interest" /\ Len(ints) = 2)
 W_LocalNeed == ~(res.op = "need" /\ res.k = "local" /\ res.c.k = "c")
+W_LocalOnlyNotSaved == ~(res.op = "deliver" /\ res.k = "data" /\ Nearest(res.path, "LocalOnly") # "none"
+                         /\ Nearest(res.path, "Cache") # "none")
 W_AttachPrefixLost == ~(phase = "run" /\ aprefix # <<>> /\ rprefix = <<>> /\ res.op = "interest" /\ res.k = "proc"
                         /\ ints[1].pos = 0)
 \* all witnesses in one run: WCollect (an invariant that always holds) notes in TLC registers which witness
 \* situations and which actions were seen, the POSTCONDITION WPost prints the ones that were not (workers = 1)
-WNames == <<"W_PatternTaken", "W_ExactOverPattern", "W_GreedyNotLongest", "W_MatchStopsEarly", "W_RootPrefixError", "W_NodeExists", "W_VarRenamed", "W_PolicyShadowed", "W_FinerPartial", "W_RegStopsAtRefusal", "W_RegCachePattern", "W_RegNothing", "W_NeedHit", "W_NeedHitLonger", "W_LocalOnlyRaise", "W_EmptySearchRaise", "W_Decrypted", "W_WrongKey", "W_ValidationFailure", "W_PolicyValidatorAcceptsBad", "W_InterestHit", "W_InterestDropped", "W_InterestDecrypted", "W_SignedInterestSent", "W_TwoCaches", "W_LocalOnlyCached", "W_SegReassembled", "W_SegFromCache", "W_SegRetry", "W_SegTimeout", "W_SegInterestZero", "W_LocalNeed", "W_AttachPrefixLost">>
-WVals == <<W_PatternTaken, W_ExactOverPattern, W_GreedyNotLongest, W_MatchStopsEarly, W_RootPrefixError, W_NodeExists, W_VarRenamed, W_PolicyShadowed, W_FinerPartial, W_RegStopsAtRefusal, W_RegCachePattern, W_RegNothing, W_NeedHit, W_NeedHitLonger, W_LocalOnlyRaise, W_EmptySearchRaise, W_Decrypted, W_WrongKey, W_ValidationFailure, W_PolicyValidatorAcceptsBad, W_InterestHit, W_InterestDropped, W_InterestDecrypted, W_SignedInterestSent, W_TwoCaches, W_LocalOnlyCached, W_SegReassembled, W_SegFromCache, W_SegRetry, W_SegTimeout, W_SegInterestZero, W_LocalNeed, W_AttachPrefixLost>>
+WNames == <<"W_PatternTaken", "W_ExactOverPattern", "W_GreedyNotLongest", "W_MatchStopsEarly", "W_RootPrefixError", "W_NodeExists", "W_VarRenamed", "W_PolicyShadowed", "W_FinerPartial", "W_RegStopsAtRefusal", "W_RegCachePattern", "W_RegNothing", "W_NeedHit", "W_NeedHitLonger", "W_LocalOnlyRaise", "W_EmptySearchRaise", "W_Decrypted", "W_WrongKey", "W_ValidationFailure", "W_PolicyValidatorAcceptsBad", "W_InterestHit", "W_InterestDropped", "W_InterestDecrypted", "W_SignedInterestSent", "W_TwoCaches", "W_LocalOnlyCached", "W_SegReassembled", "W_SegFromCache", "W_SegRetry", "W_SegTimeout", "W_SegInterestZero", "W_LocalNeed", "W_LocalOnlyNotSaved", "W_AttachPrefixLost">>
+WVals == <<W_PatternTaken, W_ExactOverPattern, W_GreedyNotLongest, W_MatchStopsEarly, W_RootPrefixError, W_NodeExists, W_VarRenamed, W_PolicyShadowed, W_FinerPartial, W_RegStopsAtRefusal, W_RegCachePattern, W_RegNothing, W_NeedHit, W_NeedHitLonger, W_LocalOnlyRaise, W_EmptySearchRaise, W_Decrypted, W_WrongKey, W_ValidationFailure, W_PolicyValidatorAcceptsBad, W_InterestHit, W_InterestDropped, W_InterestDecrypted, W_SignedInterestSent, W_TwoCaches, W_LocalOnlyCached, W_SegReassembled, W_SegFromCache, W_SegRetry, W_SegTimeout, W_SegInterestZero, W_LocalNeed, W_LocalOnlyNotSaved, W_AttachPrefixLost>>
 ActSeq == <<"GetItem", "SetItem", "SetPolicy", "SetPolicyWrong", "SetPrefix", "QMatch", "QFinerMatch", "QExist",
             "QGetPolicy", "Attach", "Provide", "ProvideSeg", "Need", "Deliver", "Fail", "Interest">>
 WBase == 2000000
